@@ -40,7 +40,7 @@ covered={
  ("x/gov/types.ProposalRouter.ApplyProposal","panic"):"Halt.apply_proposal: 'invalid proposal type' unreachable: SubmitProposal dry-runs ApplyProposal with the same content type first (input_only_panics_filtered), routes are fixed at start-up",
 }
 over={
- ("x/multistaking/keeper.Keeper.autocompoundRewards","sub"):"(function added by the pending fix C06-autocompound-no-panic) autoCompoundRewards is a sub-multiset of rewards by construction; runs on a cache context whose errors are discarded",
+ ("x/multistaking/keeper.Keeper.autocompoundRewards","sub"):"autoCompoundRewards is a sub-multiset of rewards by construction; runs on a cache context whose errors are discarded",
  ("x/gov.processEnactmentProposal","panic"):"unreachable: enactment queue entries are written with the proposal; proposals are never deleted",
  ("x/gov/types.ProposalRouter.AllowedAddressesDynamicProposal","panic"):"unreachable: same content type already routed at submission (state-independent, input_only_panics_filtered)",
  ("x/gov/types.ProposalRouter.QuorumDynamicProposal","panic"):"unreachable: same content type already routed at submission (state-independent)",
@@ -62,7 +62,7 @@ over={
  ("x/evidence/keeper.Keeper.HandleEquivocationEvidence","sub"):"time.Sub: no panic",
  ("x/slashing/keeper.Keeper.HandleValidatorSignature","panic"):"unreachable for votes of validators CometBFT knows through this app's updates (pubkey relation + signing info written on join); exercised by every block of the harness",
  ("x/slashing/keeper.Keeper.Jail","assert"):"since fix fb18192 rotation stores the updated ProposalSlashValidator, so the content of a proposal of type SlashValidator has that dynamic type (recovery-rotation histories complete)",
- ("x/multistaking/keeper.Keeper.IncreasePoolRewards","panic"):"REACHABLE: panic(err) after the autocompound re-delegation: findings IncreasePoolRewards:not-active-validator / slashed-pool / not-allowed-staking-token (pending fix C06-autocompound-no-panic); the payout of an over-credit (Halt.credit_two) surfaces in the following AllocateTokensToValidator",
+ ("x/multistaking/keeper.Keeper.IncreasePoolRewards","panic"):"REACHABLE: panic(err) after the autocompound re-delegation: findings IncreasePoolRewards:not-active-validator / slashed-pool / not-allowed-staking-token (fix a2421a4); the payout of an over-credit (Halt.credit_two) surfaces in the following AllocateTokensToValidator",
  ("x/multistaking/keeper.Keeper.IncreasePoolRewards","quo"):"guarded: shareToken.Amount.IsZero() => continue",
  ("x/multistaking/keeper.Keeper.IncreasePoolRewards","sub"):"autoCompoundRewards is a sub-multiset of rewards by construction",
  ("x/multistaking/keeper.Keeper.IncreasePoolRewards","newcoin"):"non-negative products",
